@@ -156,6 +156,8 @@ def gen_sessions(ctx, salt, nsess, boards_choices, strategies_per, arrivals_fn=N
     out = []
     for i in range(nsess):
         nb = r.choice(boards_choices)
+        if i % 2 == 0 and max(boards_choices) >= 2:
+            nb = max(nb, 2)        # these sessions mix a passed-out board with played ones, in both orders
         arr = arrivals_fn(r) if arrivals_fn else four_arrivals(r, style=styles[i % len(styles)])
         # some boards of a multi-board session are passed out by the whole table (played and passed-out boards in either order)
         po = [b for b in range(1, nb + 1) if r.random() < 0.35] if nb > 1 else []
